@@ -197,7 +197,7 @@ def gen_wire(r):
                 evs.append("(%s keepalive)" % role)
     acts = [("keepalive", 4), ("update", 3), ("update-looped", 4), ("update-attrs", 3), ("update-withdraw", 1), ("eor", 1),
             ("route-refresh", 2), ("hold-timer", 1), ("hold-timer+keepalive", 1), ("notification", 1), ("close", 1),
-            ("admin-shutdown", 1), ("connect", 2), ("open", 1), ("badopen", 1)]
+            ("admin-shutdown", 1), ("connect", 2), ("open", 1), ("badopen", 1), ("reset", 1), ("bfd-down", 1)]
     if neg != 0:
         acts.append(("ka-timer", 3))
     for _ in range(r.below(r.pick([3, 6, 10]))):
